@@ -306,12 +306,32 @@ def r08_7(ctx):
             r.ob("prefix-scan:loop", False, f.site, "%d loops" % len(be))
             return
         h = be[0][1]
-        names = {n: l for l, (tix, n, u, m) in enumerate(f.locals) if n}
-        need = ("was_escape", "group_level", "prefix_length", "left_char")
-        if any(n not in names for n in need):
-            r.ob("prefix-scan:state", False, f.site, "state variables %s not found" % [n for n in need if n not in names])
+        # state variables by role, not by name: the escape flag is the bool user variable assigned in
+        # the loop, the group depth the integer that is both incremented and decremented, the cut
+        # position the variable returned when scanning stops
+        s0 = Sym(f, copies=True)
+        kinds = {}
+        returned = set()
+        for p in s0.paths(start=h, stops={h}):
+            if p.end[0] == "ret" and p.end[1][0] == "local":
+                returned.add(p.end[1][1])
+            for e in p.events:
+                if e[0] == "set" and f.local_name(e[1]):
+                    k = kinds.setdefault(e[1], set())
+                    if mentions(e[3], lambda x: x[0] == "bin" and x[1].startswith("Add")):
+                        k.add("add")
+                    elif mentions(e[3], lambda x: x[0] == "bin" and x[1].startswith("Sub")):
+                        k.add("sub")
+                    elif e[3][0] == "const" and isinstance(e[3][1], bool):
+                        k.add("bool")
+                    else:
+                        k.add("copy")
+        bools = [l for l, k in kinds.items() if F.types[f.locals[l][0]]["s"] == "bool"]
+        depth = [l for l, k in kinds.items() if k == {"add", "sub"}]
+        if len(bools) != 1 or len(depth) != 1 or len(returned) != 1:
+            r.ob("prefix-scan:state", False, f.site, "cannot identify the scanner state by role (escape flags %s, depth counters %s, returned %s)" % ([f.local_name(x) for x in bools], [f.local_name(x) for x in depth], [f.local_name(x) for x in returned]))
             return
-        we, gl, pl = names["was_escape"], names["group_level"], names["prefix_length"]
+        we, gl, pl = bools[0], depth[0], returned.pop()
         s = Sym(f, copies=True)
         bad = set()
         rows = 0
